@@ -350,9 +350,10 @@ def check(ctx):
             rep.refuted("R-C41-apply", qm.relpath, "apply", s.stmt,
                         "qp.apply can queue the caller's own object without copying it: an already-queued object would be de-duplicated "
                         "(identity-keyed queue) instead of being recorded a second time, and later wrappers could dequeue it")
-    from .c41_extra import extra
+    from .c41_extra import consume, extra
 
     extra(ctx, rep)
+    consume(ctx, rep)
     return rep
 
 
